@@ -300,6 +300,9 @@ def gen_C04(rng, tier):
             else:
                 seq.append(rng.choice(absent))
         rng.shuffle(seq) if rng.random() < 0.3 else None
+        if seq and rng.random() < 0.6:
+            # the same pair again (the harness overwrites every list it was given before the next look-up)
+            k0 = rng.choice(seq); seq.insert(rng.randrange(len(seq) + 1), k0); seq.append(k0)
         L.append("conwayseq " + " ".join("%d %d" % k for k in seq[:30]))
     for (p, n) in [(0, 0), (1, 1), (2, 0), (4, 2), (6, 1), (2, 410), (109987, 1), (109987, 2), (109988, 1),
                    (2 ** 64 - 1, 1), (3, 2 ** 64 - 1)]:
@@ -786,6 +789,28 @@ def gen_C08(rng, tier):
         for q in rng.sample(qs, min(3, len(qs))):
             h.ops.append("obs %s" % q)
         L.append(h.line())
+    # powers whose exponents come close to the machine word: the result is representable (d*n < 2^64) although an
+    # intermediate square of the square-and-multiply loop is not; and genuine overflows next to them
+    for _ in range(150 if tier == "thorough" else 40):
+        desc = pick_field(rng, small=0.9, mid=0.1)
+        h = H(rng, desc, bspec=bspec(rng))
+        n = rng.choice([1, 2, 2, 3, 3, 4, 5, 7, 2 ** 20 + 1, 2 ** 31, 2 ** 62, 2 ** 63, 2 ** 63 + 1])
+        top = (2 ** 64 - 1) // n
+        d = max(0, top - rng.choice([0, 0, 1, 2, rng.randrange(1000)])) if rng.random() < 0.7 else top + rng.choice([1, 2, 5])
+        d = min(d, 2 ** 64 - 1)
+        e = rng.choice([0, 1, rng.randrange(0, 4)])
+        if rng.random() < 0.5:
+            d, e = e, d
+        c = rand_elem(desc, rng, special=0)
+        terms = ["%d:%d:%s" % (d, e, c)]
+        if n <= 3 and rng.random() < 0.6:
+            terms.append("%d:%d:%s" % (rng.randrange(2), rng.randrange(2) + 2, rand_elem(desc, rng, special=0)))
+        f = h.newb(); h.ops.append("%s=map@0 %s" % (f, "/".join(terms)))
+        r = h.newb(); h.ops.append("%s=pow %s %d" % (r, f, n))
+        h.ops.append("obs %s" % r)
+        if rng.random() < 0.3:
+            r2 = h.newb(); h.ops.append("%s=times %s %s" % (r2, f, f)); h.ops.append("obs %s" % r2)
+        L.append(h.line())
     for desc in fields(SMALL_Q[:9]):
         h = H(rng, desc, bspec=bspec(rng))
         f, g = h.bpoly(nterms=5, box=4), h.bpoly(nterms=4, box=3)
@@ -1267,6 +1292,35 @@ def gen_C16(rng, tier):
                         # the returned generators are mutated afterwards: the ideal must not change
                         h.ops.append("setscale %s %s" % (ds[0], rng.choice(es)))
                         h.ops.append("obs %s" % a)
+            if desc_card(desc) <= 300 and rng.random() < 0.04:
+                h.ops.append("escr@0")      # Elements(): the caller overwrites what it was given
+        L.append(h.line())
+    # shrink, then grow again in place: whatever an in-place zeroing leaves behind in the object must not come back
+    for _ in range(300 if tier == "thorough" else 60):
+        desc = pick_field(rng, small=0.8, mid=0.2)
+        h = H(rng, desc, uspec=umod_spec(rng, desc)[0] if rng.random() < 0.2 else "U:58:-", bspec=bspec(rng), snap=True)
+        f = h.upoly(deg=rng.choice([2, 3, 4, 6]), ring=0)
+        nz = h.elem(rand_elem(desc, rng, special=0)); z = h.elem("0")
+        for _ in range(rng.randrange(1, 4)):
+            how = rng.random()
+            if how < 0.3:
+                h.ops.append("setzero %s" % f)
+            elif how < 0.5:
+                h.ops.append("setscale %s %s" % (f, z))
+            elif how < 0.65:
+                h.ops.append("sub %s %s" % (f, f))
+            elif how < 0.8:
+                g = h.newu(); h.ops.append("%s=copy %s" % (g, f)); h.ops.append("sub %s %s" % (f, g))
+            else:
+                # drop only the top: set the leading coefficients to zero one by one
+                for d in range(6, rng.randrange(0, 3), -1):
+                    h.ops.append("setcoef %s %d %s" % (f, d, z))
+            for _ in range(rng.randrange(1, 3)):
+                h.ops.append("%s %s %d %s" % (rng.choice(["setcoef", "inc", "dec"]), f, rng.randrange(0, 7), nz))
+            h.ops.append("obs %s" % f)
+            if rng.random() < 0.4:
+                g = h.upoly(deg=rng.choice([1, 3, 5]), ring=0)
+                h.ops.append("%s %s %s" % (rng.choice(["add", "sub", "mult"]), f, g))
         L.append(h.line())
     return L
 
@@ -1337,6 +1391,8 @@ def gen_C17(rng, tier):
         pool = good_e + bad_e + [z]
         for _ in range(rng.randrange(3, 14)):
             a, b = rng.choice(pool), rng.choice(pool)
+            if rng.random() < 0.12:
+                b = fo          # an operand of another implementation type (receiver stays in the field)
             if rng.random() < 0.6:
                 a = rng.choice(bad_e) if rng.random() < 0.5 else a
                 b = rng.choice(bad_e) if rng.random() < 0.5 else b
@@ -1543,6 +1599,30 @@ def gen_C18(rng, tier):
                 pts = es[:3]
                 if len({h.ops[int(x[1:])].split()[-1] for x in pts if int(x[1:]) < 3}) == 3:
                     h.ops.append("%s=interp@0 %s %s" % (h.newu(), ",".join(pts), ",".join([a, b, a])))
+            if desc_card(desc) <= 300 and rng.random() < 0.12:
+                h.ops.append("escr@0")      # Elements(), then the caller overwrites everything it was given
+        L.append(h.line())
+    # extension fields whose discrete logarithms do not fit 16 bits (and one that just does): operands from the
+    # top of the group, tables requested in mid-computation
+    for (p, k) in ([(257, 2), (41, 3), (263, 2), (17, 4), (251, 2)] if tier == "thorough" else [(257, 2), (41, 3), (251, 2)]):
+        q = p ** k
+        desc = field_desc(p, k)
+        h = H(rng, desc, snap=False)
+        g = h.newe(); h.ops.append("%s=gen@0" % g)
+        ks = [65535, 65536, 65537, q - 2, q - 3, rng.randrange(65536, q - 1) if q - 1 > 65536 else rng.randrange(1, q - 1),
+              rng.randrange(1, q - 1), (q - 1) // 2]
+        es = []
+        for kk in ks[:3] if False else ks:
+            r = h.newe(); h.ops.append("%s=pow %s %d" % (r, g, kk % (q - 1) if kk >= q - 1 else kk)); es.append(r)
+        for r in es[:3]:
+            h.ops.append("%s=inv %s" % (h.newe(), r))
+        h.ops.append("tables@0 0 1 -")
+        for i, a in enumerate(es):
+            b = es[(i + 3) % len(es)]
+            h.ops.append("%s=times %s %s" % (h.newe(), a, b))
+            h.ops.append("%s=inv %s" % (h.newe(), a))
+            h.ops.append("%s=pow %s %d" % (h.newe(), a, rng.choice([2, 3, q - 2, 65537])))
+        c = h.newe(); h.ops.append("%s=copy %s" % (c, es[1])); h.ops.append("mult %s %s" % (c, es[3])); h.ops.append("prod %s %s %s" % (c, es[0], es[4]))
         L.append(h.line())
     return L
 
